@@ -158,11 +158,14 @@ pub fn apply_fault(e: usize, t: &mut Tape, cs: &mut ConfStream) -> Option<Fault>
         21 => rdh_fault!("running:orbit_changed_in_hbf", |_l: usize, pi: usize, p: &Packet| pi >= 2 && p.rdh.pages_counter != 0 && p.rdh.stop_bit == 1, RUN3, true, ["11"], "orbit+1", |r, _t| { r.orbit = r.orbit.wrapping_add(0x100); }),
         // ------------------------------------------------------------------ payload padding
         22 => {
-            let (li, pi) = pick_packet(t, cs, &|_l, _pi, p: &Packet| p.rdh.data_format() == 2 && !p.words.is_empty())?;
+            // the limit is a property of the payload, not of one data format: format-0 payloads (16-byte slots) followed
+            // by more than 15 bytes of 0xFF are over-padded as well
+            let (li, pi) = pick_packet(t, cs, &|_l, _pi, p: &Packet| !p.words.is_empty())?;
             let p = &mut cs.stream.links[li].packets[pi];
             p.pad = 16 + t.below(25);
             p.fix_sizes();
-            Some(Fault { name: "payload:padding>15".into(), codes: vec![""], loc: Loc::Rdh(li, pi), active: ITS3.to_vec(), stateful: false, value_class: format!("pad{}", if p.pad == 16 { "=16" } else { ">16" }) })
+            let fmt = p.rdh.data_format();
+            Some(Fault { name: format!("payload:padding>15:format{fmt}"), codes: vec![""], loc: Loc::Rdh(li, pi), active: ITS3.to_vec(), stateful: false, value_class: format!("pad{}", if p.pad == 16 { "=16" } else { ">16" }) })
         }
         // ------------------------------------------------------------------ status word identifiers / reserved bits (sanity level)
         23 => {
@@ -419,7 +422,7 @@ fn case(t0: &mut Tape, w: &Worker) -> CaseResult {
     };
     // E701 may be reported at any admissible frame start: collect them
     let mut accept_offs = vec![expect_off];
-    if fault.name == "stave:frame_without_data" {
+    if fault.name.as_str() == "stave:frame_without_data" {
         if let Loc::Word(li, _, _) = &fault.loc {
             for f in &cs.metas[*li].frames {
                 if f.start_candidates.iter().any(|(p, wd)| cs.stream.word_offset(&lay, cs.stream.global_index(&lay, *li, *p), *wd) == expect_off) {
